@@ -294,6 +294,75 @@ def walk_no_defs(node):
             todo.append(ch)
 
 
+def _stmt_binds(s):
+    """names a simple statement binds at module level"""
+    out = set()
+    if isinstance(s, ast.Import):
+        out |= {(a.asname or a.name.split(".")[0]) for a in s.names}
+    elif isinstance(s, ast.ImportFrom):
+        out |= {(a.asname or a.name) for a in s.names if a.name != "*"}
+    elif isinstance(s, (ast.FunctionDef, ast.ClassDef, ast.AsyncFunctionDef)):
+        out.add(s.name)
+    elif isinstance(s, ast.Assign):
+        for t in s.targets:
+            out |= {n.id for n in ast.walk(t) if isinstance(n, ast.Name)}
+    elif isinstance(s, (ast.AugAssign, ast.AnnAssign)):
+        out |= {n.id for n in ast.walk(s.target) if isinstance(n, ast.Name)}
+    elif isinstance(s, ast.With):
+        for it in s.items:
+            if it.optional_vars is not None:
+                out |= {n.id for n in ast.walk(it.optional_vars) if isinstance(n, ast.Name)}
+    return out
+
+
+def _ends_in_raise(stmts):
+    return bool(stmts) and isinstance(stmts[-1], ast.Raise)
+
+
+def definitely_bound(stmts):
+    """names bound on every path that runs the statement list to its end (module level)"""
+    out = set()
+    for s in stmts:
+        if isinstance(s, ast.If):
+            if is_py2_test(s.test):
+                out |= definitely_bound(s.orelse)
+            elif is_py3_test(s.test):
+                out |= definitely_bound(s.body)
+            else:
+                out |= definitely_bound(s.body) & definitely_bound(s.orelse)
+        elif isinstance(s, ast.Try):
+            paths = [definitely_bound(s.body) | definitely_bound(s.orelse)]
+            for h in s.handlers:
+                if not _ends_in_raise(h.body):
+                    paths.append(definitely_bound(h.body))       # (what the body bound before it raised is not known)
+            common = set(paths[0])
+            for p_ in paths[1:]:
+                common &= p_
+            out |= common | definitely_bound(s.finalbody)
+        elif isinstance(s, ast.With):
+            out |= _stmt_binds(s) | definitely_bound(s.body)
+        elif isinstance(s, (ast.For, ast.While)):
+            out |= definitely_bound(s.orelse) if False else set()
+        else:
+            out |= _stmt_binds(s)
+    return out
+
+
+def possibly_bound_names(stmts):
+    """names bound by some statement of the module body that the path analysis above looks at (others - star imports,
+    `global` declarations in functions - are left to the path-insensitive set)"""
+    out = set()
+    for s in stmts:
+        out |= _stmt_binds(s)
+        for f in ("body", "orelse", "finalbody"):
+            sub = getattr(s, f, None)
+            if isinstance(sub, list) and not isinstance(s, (ast.FunctionDef, ast.ClassDef, ast.AsyncFunctionDef)):
+                out |= possibly_bound_names(sub)
+        for h in getattr(s, "handlers", []) or []:
+            out |= possibly_bound_names(h.body)
+    return out
+
+
 def check(repo):
     """returns (obligations, failures): lists of dicts"""
     w = World(repo)
@@ -307,11 +376,15 @@ def check(repo):
             f["detail"] = detail
             failures.append(f)
 
-    # 1. __all__
+    # 1. __all__: bound on EVERY path through the module body (a name bound only in a `try:` whose ImportError handler does
+    #    not bind it is missing exactly in the configuration the fallback exists for)
     for name, m in sorted(w.mods.items()):
         if m.all is not None:
+            always = definitely_bound(m.tree.body) | {n for n in m.bound if n not in possibly_bound_names(m.tree.body)}
             for a in m.all:
-                ob("all", name, a, a in m.bound, "%s.__all__ advertises %r which is not bound in the module" % (name, a))
+                ob("all", name, a, a in m.bound and a in always,
+                   "%s.__all__ advertises %r which is not bound in the module%s"
+                   % (name, a, "" if a not in m.bound else " on every path (e.g. only in a try body whose handler does not bind it)"))
     # 2. global name loads
     for name, m in sorted(w.mods.items()):
         dead = dead_nodes(m)
